@@ -159,6 +159,10 @@ def mutations(prog, rng, per_kind=2):
     # ---- unknown attributes
     out.append(('unknown_attr', 'unknown inner attribute', '   #![no_such_ascent_attribute]\n' + base))
     out.append(('unknown_attr', 'known inner attribute with an argument', '   #![measure_rule_times(yes)]\n' + base))
+    # a path-qualified name is not one of the recognised attributes either (it would be dropped silently: nothing forwards program-level attributes)
+    out.append(('unknown_attr_path', 'recognised inner attribute written with a path', '   #![ascent::measure_rule_times]\n' + base))
+    out.append(('unknown_attr_path', 'recognised inner attribute written with a leading ::', '   #![::generate_run_timeout]\n' + base))
+    out.append(('unknown_attr_path', 'tool attribute at program level', '   #![rustfmt::skip]\n' + base))
     rl = [k for k, l in enumerate(lines) if '<--' in l]
     if rl:
         k = rng.choice(rl)
